@@ -344,12 +344,13 @@ class NetworkMixin(RadioMixin):
             if temp_buf is None:
                 return ret_val
             if (
-                not self.frame_buf.unpack(temp_buf)
-                or not is_address_valid(self.frame_buf.header.to_node)
-                or not is_address_valid(self.frame_buf.header.from_node)
+                len(temp_buf) < 8
+                or not is_address_valid(temp_buf[2] | (temp_buf[3] << 8))
+                or not is_address_valid(temp_buf[0] | (temp_buf[1] << 8))
             ):
                 # print("discarding frame due to invalid network addresses.")
-                continue
+                continue  # frame_buf keeps the last frame that was actually handled
+            self.frame_buf.unpack(temp_buf)
 
             # print(
             #     "Received frame: " + self.frame_buf.header.to_string(),
